@@ -308,7 +308,7 @@ class C18(Check):
             "position; getpass answers <= 3 over 5 PIN kinds + EOFError + walk away, "
             "Enter with / without re-plugging / end of file} for every static configuration {onboard, unlock, "
             "changepin, pubkeys} x {Ledger, SGX} x --pin x10 x --newpin x10 (thorough x14) x --anypin x --nounlock x "
-            "--noexec x output x 2 randomness streams (quick: second stream with --pin valid only) (flags a command does not read are enumerated "
+            "--noexec x output x 2 randomness streams (second stream where --pin is given; quick: --pin valid only) (flags a command does not read are enumerated "
             "in the thorough tier), driven through adm_ledger.main / adm_sgx.main.  A state is "
             "(configuration, device state, chosen dimensions, operator progress) at a choice point; "
             "distinct outcome = (command, platform, exit, APDU command shape, files, end state).")
@@ -349,7 +349,8 @@ class C18(Check):
             raise HarnessError("the two randomness streams coincide")
         self.modes = MODES + (["status-error-generic"] if self.thorough else [])
         self.stdin_menu = STDIN_MENU + (STDIN_EXTRA if self.thorough else [])
-        ws = WS_KINDS if self.thorough else WS_QUICK
+        # getpass answers: quick 2 whitespace kinds, thorough 3 (all five in --pin / --newpin)
+        ws = (WS_QUICK + ["trail-nl"]) if self.thorough else WS_QUICK
         self.getpass_menu = GETPASS_MENU + [e for e in GETPASS_WS if e[0] in ws]
         self.pin_kinds = PIN_KINDS + (WS_KINDS if self.thorough else WS_QUICK_OPT) + ANYPIN_ONLY
         self.td = None
@@ -379,9 +380,9 @@ class C18(Check):
             cs.append({"kind": "config", "cfg": kw})
             # -v/--verbose builds the dongle objects with debug=True (SGX: also -s/-p host and
             # port): crossed with the scenarios where the PIN comes from the command line
-            # (thorough: with every configuration but the sharded interactive onboarding)
+            # (thorough: with every configuration where --pin is given)
             if (kw["pin"] == "valid" and kw["newpin"] in ("absent", "valid")) or \
-                    (T and kw.get("first_getpass") is None):
+                    (T and kw["pin"] != "absent"):
                 kv = dict(kw, verbose=True)
                 kv["id"] = len(cs)
                 cs.append({"kind": "config", "cfg": kv})
@@ -391,9 +392,9 @@ class C18(Check):
                 for anypin in (False, True):
                     # onboard
                     for out in (True, False):
-                        # second randomness stream: everywhere in thorough; in quick where the
-                        # PIN comes from the command line (the seed does not depend on the dialogue)
-                        for stream in (("a", "b") if T or pin == "valid" else ("a",)):
+                        # second randomness stream: with --pin valid (quick), with every --pin
+                        # given (thorough); the seed does not depend on the dialogue
+                        for stream in (("a", "b") if (T and pin != "absent") or pin == "valid" else ("a",)):
                             # flags onboard does not read: thorough, and only where the tree is small
                             T2 = T and pin != "absent"
                             for ne in (ne_all if T2 else (False,)):
